@@ -72,7 +72,9 @@ Inductive event :=
 | EFd (id : nat)                           (* the sendmsg that accepted the next chunk carried SCM_RIGHTS *)
 | EFdFail (id : nat)
 | EConnect (code : Z)                     (* uv_tcp_connect / uv_pipe_connect called again on the handle, and what it returned *)
-| EReopen.                                (* that call set UV_HANDLE_WRITABLE on a stream where it was clear (ghost) *)
+| EReopen                                 (* that call set UV_HANDLE_WRITABLE on a stream where it was clear (ghost) *)
+| EOrphan.                                (* that connect was started while finished requests awaited their
+                                             callback in write_completed_queue (ghost) *)
 (* EFdFail: a sendmsg carrying SCM_RIGHTS failed (EAGAIN or error);
    EQ: uv_stream_get_write_queue_size after a top-level step *)
 
@@ -411,6 +413,10 @@ Definition api_close (s : st) : st :=
 
 Definition UV_EALREADY : Z := (-114)%Z.
 
+(* ghost: a connect accepted while write_completed_queue is not empty (the requests in it are
+   finished, their callbacks are due at the next run of the pending queue) *)
+Definition orphan (s : st) : st := match cq s with [] => s | _ :: _ => ev EOrphan s end.
+
 (* uv_tcp_connect / uv_pipe_connect on a handle that already has its socket (a retry after a
    failed connect).  The connect(2) result is the next entry of [connres].
    uv__tcp_connect: UV_EALREADY while a connect is pending; maybe_new_socket ors
@@ -432,16 +438,18 @@ Definition api_connect (s : st) : st :=
       let s1 := if writable s then s else ev EReopen (set_writable true s) in
       let s1 := set_readable true s1 in
       if conn_pending_ok cres then
-        ev (EConnect 0%Z) (set_armed true (set_connecting true s1))
+        (* delayed_error is 0 here: it is non-zero only while a connect is pending, which returned
+           UV_EALREADY above; the model writes the 0 *)
+        orphan (ev (EConnect 0%Z) (set_armed true (set_derr 0%Z (set_connecting true s1))))
       else if match cres with Some 111%positive => true | _ => false end then
-        ev (EConnect 0%Z) (set_fed true (set_armed true (set_derr (conn_derr cres) (set_connecting true s1))))
+        orphan (ev (EConnect 0%Z) (set_fed true (set_armed true (set_derr (conn_derr cres) (set_connecting true s1)))))
       else ev (EConnect (conn_derr cres)) s1
     else
       if conn_pending_ok cres then
         let s1 := if negb (readable s) && negb (writable s)
                   then set_readable true (ev EReopen (set_writable true s)) else s in
-        ev (EConnect 0%Z) (set_armed true (set_derr 0%Z (set_connecting true s1)))
-      else ev (EConnect 0%Z) (set_fed true (set_derr (conn_derr cres) (set_connecting true s))).
+        orphan (ev (EConnect 0%Z) (set_armed true (set_derr 0%Z (set_connecting true s1))))
+      else orphan (ev (EConnect 0%Z) (set_fed true (set_derr (conn_derr cres) (set_connecting true s)))).
 
 Definition api (s : st) (o : op) : st :=
   match o with
